@@ -184,6 +184,16 @@ def query(m, key, frame):
 def read(m, key, frame=None):
     if key.startswith("q:"):
         return query(m, key, frame)
+    if key == "face_adjacency_radius":
+        # span / |2 sin(angle)|: where two adjacent faces are folded flat onto each other (angle = pi, as for
+        # the duplicated faces of the `strip_dup` seed) this is rounding noise over rounding noise and a
+        # sign bit of -0.0 in a normal decides between 0.0 and 1.28: those entries are not a value the mesh
+        # "reports", they are masked on both sides (found by the thorough tier, DESIGN.md 0.5)
+        r = np.array(getattr(m, key), dtype=np.float64)
+        ang = np.asarray(m.face_adjacency_angles, dtype=np.float64)
+        if ang.shape == r.shape:
+            r[np.abs(np.sin(ang)) < 1e-6] = -1.0
+        return r
     return getattr(m, key)
 
 
